@@ -54,6 +54,12 @@ def Time.before (t u : Time) : Bool :=
   | none, some _ => true
   | some a, some b => decide (a < b)
   | _, none => false
+/-- `t.Add(d)`.  The zero Time plus a duration is modelled as the zero Time: year 1 plus anything the service is
+    configured with is still before every instant a clock produces, which is all `Before` can observe of it. -/
+def Time.add (t : Time) (d : Int) : Time :=
+  match t.unixNano with
+  | some a => { unixNano := some (a + d) }
+  | none => {}
 /-- `t.IsZero()` (a value method: no receiver to dereference) -/
 def Time.IsZero! (t : Time) : M Bool := pure t.unixNano.isNone
 
@@ -180,6 +186,18 @@ def Map.get (m : Map) (k : Str) : Str :=
 def Map.set : Map → Str → Str → Map
   | [], k, v => [(k, v)]
   | (k', v') :: t, k, v => if k' == k then (k', v) :: t else (k', v') :: Map.set t k v
+
+/-- Go `map[string]T` for other element types: unique keys -/
+abbrev MapOf (α : Type) := List (Str × α)
+
+/-- `m[k]`, `zero` when absent -/
+def MapOf.get {α : Type} (m : MapOf α) (k : Str) (zero : α) : α :=
+  match m.find? (·.1 == k) with
+  | some kv => kv.2
+  | none => zero
+
+/-- `delete(m, k)` -/
+def MapOf.delete {α : Type} (m : MapOf α) (k : Str) : MapOf α := m.filter (fun kv => !(kv.1 == k))
 
 /-- `for k, v := range m` (one admissible order) -/
 def Map.entries (m : Map) : List (Str × Str) := m
